@@ -195,7 +195,7 @@ const CTOR_NAMES: &[&str] = &["A", "B", "C", "D", "A", "B", "Ok", "Nil", "Error"
 const LABELS: &[&str] = &["l", "x", "n"];
 // directories called like the source directories themselves are legal module path segments
 // `sub` next to `q/sub`, `g` next to `src/g`: two modules with the same last segment (one of them is imported under an alias)
-const MOD_NAMES: &[&str] = &["m", "n", "p", "q/sub", "test/h", "src/g", "sub", "g"];
+const MOD_NAMES: &[&str] = &["m", "n", "p", "q/sub", "test/h", "src/g", "sub", "g", "p/q/r"];
 
 pub struct Cfg {
     pub max_modules: usize,
